@@ -29,6 +29,10 @@ type StoreCfg struct {
 	StreamBatch  int    `json:"stream_batch,omitempty"`  // sqlite.WithStreamBatchSize
 	ChunkSize    int    `json:"chunk,omitempty"`         // durable-streams server chunk size in bytes (0 = default)
 	InMemory     bool   `json:"in_memory,omitempty"`     // sqlite: the ":memory:" path instead of a file
+	// ShortReads: the decorated store returns only about half of the events a Read asked for (with the
+	// matching next offset) although more remain - legal for an EventStore, whose limit is a maximum,
+	// and what a store that pages by bytes does.
+	ShortReads bool `json:"short_reads,omitempty"`
 }
 
 func (c StoreCfg) String() string {
@@ -44,6 +48,9 @@ func (c StoreCfg) String() string {
 	}
 	if c.InMemory {
 		s += "+:memory:"
+	}
+	if c.ShortReads {
+		s += "+shortreads"
 	}
 	return s
 }
@@ -223,6 +230,7 @@ type fcore struct {
 	// The crash model kills the calling incarnation from inside it.
 	OnOp        func()
 	CrashBefore bool
+	ShortReads  bool
 	// AppendCalls counts calls that reached the decorator (for the no-retry rule)
 	AppendCalls int
 	AppendCtxErrAtReturn []bool
@@ -318,6 +326,11 @@ func (f *fcore) Read(ctx context.Context, from eventbus.Offset, limit int) ([]*e
 		return nil, from, errInjected
 	}
 	evs, next, err := f.inner.Read(ctx, from, limit)
+	if err == nil && f.ShortReads && len(evs) > 1 {
+		evs = evs[:(len(evs)+1)/2]
+		next = evs[len(evs)-1].Offset
+		f.fire("short-read")
+	}
 	f.opAfter()
 	simrt.Yield(siteStoreOp)
 	if simrt.Dead() {
